@@ -9,8 +9,8 @@ import (
 )
 
 func init() {
-	props["C01"] = &prop{gen: genC01, eval: evalC01, pure: true}
-	props["C09"] = &prop{gen: genC09, eval: evalC09, pure: true}
+	props["C01"] = &prop{gen: genC01, eval: evalC01, pure: true, par: func(string) bool { return true }}
+	props["C09"] = &prop{gen: genC09, eval: evalC09, pure: true, par: func(string) bool { return true }}
 }
 
 // ---------- C01: wire codec ----------
